@@ -10,6 +10,9 @@ Worlds  : ("g", 2-D) and ("g", 3-D): generic, well conditioned operands from mc.
           that every intermediate point of every program stays inside the piecewise-affine domain
           (the reference checks containment itself).
           ("dec", d): roots for the decomposition clause only.
+          ("h", d): the state additionally owns ONE live homogeneous-family operand that is composed, re-parametrised
+          through its public API (set_target / from_vector_inplace / compose_*_inplace) and composed again
+          (see HELD_SCHEDULES) - the only way to see anything remembered on an object between calls.
 Ops     : (method, operand letter, role): method in compose_before / compose_after / _inplace variants;
           role "r": the state is the receiver and the fresh operand the argument, role "a": the fresh
           operand is the receiver and the state the argument (only from level 1 on - at level 0 the roots x
@@ -73,6 +76,22 @@ SCHEDULES = {
     "Q": [("full", "r"), ("full", "ra")],
     "B": [("full", "r"), ("reduced", "ra"), ("reduced", "r")],
 }
+
+
+# The 'held operand' world ("h"): besides the transform built so far the state owns ONE live operand (a
+# homogeneous-family letter) that is used again and again: composed (as receiver or argument, with the state,
+# with a fresh instance of its own class or with a fresh Affine), re-parametrised through its public API
+# (set_target, from_vector_inplace, compose_*_inplace) and composed again.  The reference reads the held
+# operand's matrix at the time of each call.  Anything computed once and kept on an object (or handed on to
+# results) is only observable through such reuse.
+# op groups: n = non-in-place compose with the held operand, p = in-place compose whose receiver is the partner,
+#            h = in-place compose whose receiver is the held operand, r = set_target / from_vector_inplace
+HELD_SCHEDULES = {
+    "H": ["nph", "rh", "nph"],
+    "HT": ["nphr", "nphr", "nphr"],
+}
+HELD_VAR, DONOR_VAR = 20, 40
+PARTNERS = ("cur", "same", "Affine")
 
 
 class Outside(Exception):
@@ -348,7 +367,10 @@ class C03(Check):
         self._probes = {}
 
     def depth(self):
-        return max(len(SCHEDULES[s]) for s in self._scheds())
+        return max([len(SCHEDULES[s]) for s in self._scheds()] + [len(HELD_SCHEDULES[s]) for s in self._held_scheds()])
+
+    def _held_scheds(self):
+        return ["H"] if self.tier == "quick" else ["H", "HT"]
 
     def _scheds(self):
         return ["Q"] if self.tier == "quick" else ["Q", "B"]
@@ -359,6 +381,10 @@ class C03(Check):
             for (world, d), letters in FULL.items():
                 for letter in letters:
                     out.append((d, world, letter, sched))
+        for sched in self._held_scheds():
+            for d in (2, 3):
+                for letter in HOMOG:
+                    out.append((d, "h", letter, sched))
         for d in (2, 3):
             for letter in DEC_LETTERS:
                 out.append((d, "dec", letter, "-"))
@@ -369,6 +395,8 @@ class C03(Check):
         """A FRESH instance of an operand letter.  The letter is constructed once per process through
         mc.letters (seeding a RandomState per letter is what costs) and kept pickled; every request
         unpickles a new, unshared object graph (python's pickle, not menpo's copy(), which is under test)."""
+        if world == "h":
+            world = "g"
         key = (world, d, letter, var)
         blob = self._blobs.get(key)
         if blob is None:
@@ -402,10 +430,15 @@ class C03(Check):
 
     def build(self, root):
         d, world, letter, sched = int(root[0]), root[1], root[2], root[3]
-        w = "g" if world == "dec" else world
+        w = "g" if world in ("dec", "h") else world
         cur, model = self.operand(w, d, letter, 0)
         din, dout = dims_of(letter, d)
+        held, held_model = self.operand(w, d, letter, HELD_VAR) if world == "h" else (None, None)
         return {
+            "held": held,
+            "held_model": held_model,
+            "held_ver": 0,
+            "hist": (),
             "d": d,
             "world": world,
             "sched": sched,
@@ -426,12 +459,18 @@ class C03(Check):
         # up to 1e-9, the same matrices / members, i.e. the same futures.  No rounded floating point number
         # enters the key, so the confluence re-expansion of the thorough tier cannot be fooled by a value that
         # straddles a rounding boundary.
+        if st["world"] == "h":
+            # no merging at all in the held-operand world: what is hunted there (something remembered from an
+            # earlier call) is by definition not a function of the visible state
+            return ("h", st["hist"])
         return (st["n"], st["din"], st["dout"], st["honest"], structure(st["cur"]), tuple(e[3] for e in st["model"]))
 
     # ------------------------------------------------------------------ alphabet
     def ops(self, st, level):
         if st["world"] == "dec":
             return []
+        if st["world"] == "h":
+            return self._held_ops(st, level)
         sched = SCHEDULES[st["sched"]]
         if level >= len(sched):
             return []
@@ -458,8 +497,8 @@ class C03(Check):
 
     # ------------------------------------------------------------------ step
     def apply(self, st, op, verify=True):
-        M = _m()
-        mt = M["mt"]
+        if op[0] in ("hc", "hr"):
+            return self._apply_held(st, op, verify)
         m, letter, role = op
         d, world = st["d"], st["world"]
         operand, ent = self.operand(world, d, letter, st["n"] + 1)
@@ -470,68 +509,11 @@ class C03(Check):
         else:
             recv, arg, recv_model, arg_model = operand, cur, ent, st["model"]
         recv_first = m in ("cb", "cbi")
-        new_model = (recv_model + arg_model) if recv_first else (arg_model + recv_model)
         cur_first = recv_first == (role == "r")
         new_din, new_dout = (st["din"], odout) if cur_first else (odin, st["dout"])
         where = "%s(%s)" % (MNAME[m], "state-is-receiver" if role == "r" else "state-is-argument")
+        fails, accepted, new_cur, new_model, obs_r, obs_a = self._call(st, m, recv, arg, recv_model, arg_model, where, verify, st["honest"], st["n"] == 0)
         pair = "%s.%s(%s)" % (type(recv).__name__, MNAME[m], type(arg).__name__)
-        fails = []
-        both_homog = isinstance(recv, mt.Homogeneous) and isinstance(arg, mt.Homogeneous)
-        if verify:
-            obs_r, obs_a = observe(recv), observe(arg)
-            if both_homog:
-                det_r = np.linalg.det(np.asarray(recv.h_matrix)[:-1, :-1])
-                det_a = np.linalg.det(np.asarray(arg.h_matrix)[:-1, :-1])
-
-        if m in ("cb", "ca"):
-            res = getattr(recv, MNAME[m])(arg)
-            if verify:
-                self.note("%s:%s" % (m, "native" if not isinstance(res, mt.TransformChain) else "chain"))
-                if res is recv or res is arg:
-                    fails.append(Failure(where, "result-is-an-operand", "%s returned its %s" % (pair, "receiver" if res is recv else "argument")))
-                df = obs_diff(obs_r, observe(recv))
-                if df:
-                    fails.append(Failure(where, "receiver-changed", "%s changed its receiver: %s" % (pair, df)))
-                df = obs_diff(obs_a, observe(arg))
-                if df:
-                    fails.append(Failure(where, "argument-changed", "%s changed its argument: %s" % (pair, df)))
-                self.note("operands:unchanged-checked")
-                if both_homog:
-                    fails.extend(self._closure(res, where, pair, st["honest"], det_r, det_a))
-                fails.extend(self._map(res, new_model, st["X"], where, pair, "composition-law"))
-                if not fails and isinstance(res, mt.Affine) and st["n"] == 0:
-                    fails.extend(self._decompose(res, where, "result of " + pair))
-            new_cur = res
-            accepted = True
-        else:
-            expect_accept = isinstance(arg, recv.composes_inplace_with)
-            try:
-                getattr(recv, MNAME[m])(arg)
-                accepted = True
-            except ValueError:
-                accepted = False
-            if verify:
-                self.note("%s:%s" % (m, "accepted" if accepted else "ValueError"))
-                if accepted != expect_accept:
-                    fails.append(
-                        Failure(where, "inplace-acceptance", "%s %s although isinstance(argument, receiver.composes_inplace_with) is %s" % (pair, "was accepted" if accepted else "raised ValueError", expect_accept))
-                    )
-                if accepted:
-                    fails.extend(self._map(recv, new_model, st["X"], where, pair, "inplace-same-map"))
-                    if both_homog:
-                        # the receiver keeps its class, so what it accepts must keep its matrix inside that class
-                        if st["honest"]:
-                            why = dishonest(recv)
-                            self.note("inplace-honest:%s" % type(recv).__name__)
-                            if why:
-                                fails.append(Failure(where, "class-honesty-inplace", "%s was accepted and left %s" % (pair, why)))
-                        else:
-                            self.note("honesty:not-demanded-dishonest-operand")
-                else:
-                    df = obs_diff(obs_r, observe(recv))
-                    if df:
-                        fails.append(Failure(where, "receiver-changed-by-refused-inplace", "%s raised ValueError but changed its receiver: %s" % (pair, df)))
-            new_cur = recv
         if verify and not fails:
             # objects handed to earlier non-in-place calls must still be what they were
             for tag, obj, obs in st["old"]:
@@ -554,9 +536,193 @@ class C03(Check):
         st["n"] += 1
         if verify:
             self.note("program-length:%d" % st["n"])
+        mt = _m()["mt"]
         st["honest"] = (dishonest(new_cur) is None) if isinstance(new_cur, mt.Homogeneous) else True
         if verify and not st["honest"]:
             self.note("state:dishonest-after-%s" % ("inplace" if m in ("cbi", "cai") else "composing-a-dishonest-operand"))
+        return fails
+
+    def _call(self, st, m, recv, arg, recv_model, arg_model, where, verify, operands_honest, with_decompose):
+        """One real compose call + its step oracle.  -> (fails, accepted, object that now carries the
+        composition, its model, observation of receiver / argument before the call)."""
+        mt = _m()["mt"]
+        recv_first = m in ("cb", "cbi")
+        new_model = (recv_model + arg_model) if recv_first else (arg_model + recv_model)
+        pair = "%s.%s(%s)" % (type(recv).__name__, MNAME[m], type(arg).__name__)
+        fails = []
+        obs_r = obs_a = None
+        both_homog = isinstance(recv, mt.Homogeneous) and isinstance(arg, mt.Homogeneous)
+        if verify:
+            obs_r, obs_a = observe(recv), observe(arg)
+            if both_homog:
+                det_r = np.linalg.det(np.asarray(recv.h_matrix)[:-1, :-1])
+                det_a = np.linalg.det(np.asarray(arg.h_matrix)[:-1, :-1])
+
+        if m in ("cb", "ca"):
+            res = getattr(recv, MNAME[m])(arg)
+            if verify:
+                self.note("%s:%s" % (m, "native" if not isinstance(res, mt.TransformChain) else "chain"))
+                if res is recv or res is arg:
+                    fails.append(Failure(where, "result-is-an-operand", "%s returned its %s" % (pair, "receiver" if res is recv else "argument")))
+                df = obs_diff(obs_r, observe(recv))
+                if df:
+                    fails.append(Failure(where, "receiver-changed", "%s changed its receiver: %s" % (pair, df)))
+                df = obs_diff(obs_a, observe(arg))
+                if df:
+                    fails.append(Failure(where, "argument-changed", "%s changed its argument: %s" % (pair, df)))
+                self.note("operands:unchanged-checked")
+                if both_homog:
+                    fails.extend(self._closure(res, where, pair, operands_honest, det_r, det_a))
+                fails.extend(self._map(res, new_model, st["X"], where, pair, "composition-law"))
+                if not fails and isinstance(res, mt.Affine) and with_decompose:
+                    fails.extend(self._decompose(res, where, "result of " + pair))
+            return fails, True, res, new_model, obs_r, obs_a
+        expect_accept = isinstance(arg, recv.composes_inplace_with)
+        try:
+            getattr(recv, MNAME[m])(arg)
+            accepted = True
+        except ValueError:
+            accepted = False
+        if verify:
+            self.note("%s:%s" % (m, "accepted" if accepted else "ValueError"))
+            if accepted != expect_accept:
+                fails.append(
+                    Failure(where, "inplace-acceptance", "%s %s although isinstance(argument, receiver.composes_inplace_with) is %s" % (pair, "was accepted" if accepted else "raised ValueError", expect_accept))
+                )
+            if accepted:
+                fails.extend(self._map(recv, new_model, st["X"], where, pair, "inplace-same-map"))
+                if both_homog:
+                    # the receiver keeps its class, so what it accepts must keep its matrix inside that class
+                    if operands_honest:
+                        why = dishonest(recv)
+                        self.note("inplace-honest:%s" % type(recv).__name__)
+                        if why:
+                            fails.append(Failure(where, "class-honesty-inplace", "%s was accepted and left %s" % (pair, why)))
+                    else:
+                        self.note("honesty:not-demanded-dishonest-operand")
+            else:
+                df = obs_diff(obs_r, observe(recv))
+                if df:
+                    fails.append(Failure(where, "receiver-changed-by-refused-inplace", "%s raised ValueError but changed its receiver: %s" % (pair, df)))
+        return fails, accepted, recv, new_model, obs_r, obs_a
+
+    # ------------------------------------------------------------------ the held-operand world
+    def _held_ops(self, st, level):
+        sched = HELD_SCHEDULES[st["sched"]]
+        if level >= len(sched):
+            return []
+        groups = sched[level]
+        partners = [p for p in PARTNERS if not (p == "Affine" and st["letter"] == "Affine")]
+        out = []
+        if "n" in groups:
+            for m in ("cb", "ca"):
+                out += [("hc", m, "held", p) for p in partners]
+                out += [("hc", m, p, "held") for p in partners]
+        if "r" in groups:
+            if isinstance(st["held"], _m()["Alignment"]):
+                out += [("hr", "set_target", 1), ("hr", "set_target", 2)]
+            out.append(("hr", "from_vector", 1))
+        if "h" in groups:
+            for m in ("cbi", "cai"):
+                out += [("hc", m, "held", p) for p in partners]
+        if "p" in groups:
+            for m in ("cbi", "cai"):
+                out += [("hc", m, p, "held") for p in partners]
+        return out
+
+    def _new_target(self, held, k):
+        """a target reachable by no map of the class exactly: a generic affine image of the source + noise."""
+        PointCloud = _m()["PointCloud"]
+        d = held.n_dims
+        a = np.asarray(self.make("g", d, "Affine", 30 + k).h_matrix, dtype=float)
+        src = np.asarray(held.source.points, dtype=float)
+        r = L.rs(self.seed, "c03-target", type(held).__name__, d, k)
+        return PointCloud(src.dot(a[:d, :d].T) + a[:d, d] + 0.05 * r.randn(*src.shape))
+
+    def _apply_held(self, st, op, verify):
+        M = _m()
+        mt = M["mt"]
+        d, letter = st["d"], st["letter"]
+        held, cur = st["held"], st["cur"]
+        fails = []
+        if op[0] == "hr":
+            kind, k = op[1], op[2]
+            where = "held-operand.%s" % kind
+            obs_cur = observe(cur) if verify else None
+            if kind == "set_target":
+                held.set_target(self._new_target(held, k))
+            else:
+                donor = self.make("g", d, letter, DONOR_VAR)
+                try:
+                    v = np.array(donor.as_vector(), dtype=float, copy=True)
+                    held.from_vector_inplace(v)
+                except NotImplementedError:
+                    if verify:
+                        self.note("held:from_vector-not-implemented")
+                    return []  # this class is not vectorizable in this dimension: nothing happened
+            st["held_ver"] += 1
+            st["hist"] = st["hist"] + (op,)
+            # the operand's parameters at the time of the next calls
+            st["held_model"] = [("H", np.array(held.h_matrix, dtype=float, copy=True), letter, (letter, HELD_VAR, 0) + st["hist"])]
+            if verify:
+                self.note("held:reparam-%s" % kind)
+                why = dishonest(held)
+                if why:
+                    fails.append(Failure(where, "class-honesty-after-reparametrisation", "%s.%s left %s" % (type(held).__name__, kind, why)))
+                fails.extend(self._map(held, st["held_model"], st["X"], where, type(held).__name__, "apply-after-reparametrisation"))
+                # what was built from the operand earlier is an independent object
+                df = obs_diff(obs_cur, observe(cur))
+                if df:
+                    fails.append(Failure(where, "earlier-result-changed", "re-parametrising the %s operand changed the transform composed from it earlier: %s" % (type(held).__name__, df)))
+                fails.extend(self._map(cur, st["model"], st["X"], where, type(cur).__name__, "earlier-result-changed"))
+            return fails
+
+        _, m, rw, aw = op
+
+        def pick(w):
+            if w == "held":
+                return held, st["held_model"]
+            if w == "cur":
+                return cur, st["model"]
+            return self.operand("g", d, letter if w == "same" else "Affine", st["n"] + 1)
+
+        recv, recv_model = pick(rw)
+        arg, arg_model = pick(aw)
+        where = "%s(%s-operand, %s)" % (MNAME[m], {"held": "held", "cur": "state", "same": "fresh-same-class", "Affine": "fresh-Affine"}[rw], {"held": "held-operand", "cur": "state", "same": "fresh-same-class", "Affine": "fresh-Affine"}[aw])
+        pair = "%s.%s(%s)" % (type(recv).__name__, MNAME[m], type(arg).__name__)
+        bystander = None
+        if verify:
+            obs_held = observe(held)
+            if "cur" not in (rw, aw) and m in ("cbi", "cai"):
+                bystander = observe(cur)  # stays in the pool untouched
+        fails, accepted, new_obj, new_model, obs_r, obs_a = self._call(st, m, recv, arg, recv_model, arg_model, where, verify, True, False)
+        if verify:
+            self.note("held:compose-%s%s" % ("inplace" if m in ("cbi", "cai") else "new", "-after-reparametrisation" if st["held_ver"] else ""))
+            if m in ("cbi", "cai") and aw == "held":
+                df = obs_diff(obs_held, observe(held))
+                if df:
+                    fails.append(Failure(where, "argument-changed-by-inplace", "%s changed its argument: %s" % (pair, df)))
+            if m in ("cbi", "cai") and aw == "cur" and accepted:
+                df = obs_diff(obs_a, observe(cur))
+                if df:
+                    fails.append(Failure(where, "argument-changed-by-inplace", "%s changed its argument: %s" % (pair, df)))
+            if bystander is not None:
+                df = obs_diff(bystander, observe(cur))
+                if df:
+                    fails.append(Failure(where, "bystander-changed", "%s changed a transform that took no part in the call: %s" % (pair, df)))
+        if not accepted:
+            return fails
+        if m in ("cb", "ca") or rw != "held":
+            st["cur"], st["model"] = new_obj, new_model  # the result / the partner that swallowed the held operand
+        else:
+            st["held_model"] = new_model  # the held operand swallowed its partner
+            st["held_ver"] += 1
+            if verify:
+                self.note("held:reparam-compose_inplace")
+        st["n"] += 1
+        st["hist"] = st["hist"] + (op,)
+        if verify:
+            self.note("program-length:%d" % st["n"])
         return fails
 
     # ------------------------------------------------------------------ oracles
@@ -705,6 +871,15 @@ class C03(Check):
             "decompose:4-parts-negative-determinant",
             "decompose:1-parts",
         ]
+        need += [
+            "held:compose-new",
+            "held:compose-inplace",
+            "held:reparam-set_target",
+            "held:reparam-from_vector",
+            "held:reparam-compose_inplace",
+            "held:compose-new-after-reparametrisation",
+            "held:compose-inplace-after-reparametrisation",
+        ]
         need.append("program-length:%d" % self.depth())
         out = ["outcome %s never produced" % n for n in need if not notes.get(n)]
         inside = sum(v for k, v in notes.items() if k.startswith("map:") and k.endswith("-with-pwa"))
@@ -728,6 +903,9 @@ class C03(Check):
             "letters_reduced": {"%s%dd" % k: len(v) for k, v in REDUCED.items()},
             "methods": len(METHODS),
             "schedules": {s: SCHEDULES[s] for s in self._scheds()},
+            "held_operand_letters": len(HOMOG),
+            "held_operand_schedules": {s: HELD_SCHEDULES[s] for s in self._held_scheds()},
+            "held_operand_partners": list(PARTNERS),
             "decompose_letters": len(DEC_LETTERS),
             "probe_points": 8,
         }
@@ -738,6 +916,7 @@ class C03(Check):
             "map equality is decided on 8 probe points (a homography is fixed by d+2 points in general position) with tolerance %g x largest intermediate coordinate; probe points closer than %g (relative) to a projective horizon of an intermediate map are dropped" % (TOL, HORIZON),
             "programs whose composition is dimensionally ill-formed (after the 3-D -> 2-D WithDims) are not enabled",
             "class honesty is demanded of the result of a non-in-place call and of the receiver after an ACCEPTED in-place call, whenever both operands are homogeneous and themselves honest (the [interp] of DESIGN.md that excused the in-place variants rested on Translation/Similarity swallowing any Affine in place; that was repaired as D28/D29, every composes_inplace_with is now closed under composition)",
+            "held-operand world: the reused operand is one of the 12 homogeneous-family classes (all its compositions with the state, its own class and Affine are native, so no chain aliases it); its re-parametrisations are set_target (two targets), from_vector_inplace (one donor vector) and compose_*_inplace; the reference reads its h_matrix after each re-parametrisation; programs of 3 calls, the middle one a re-parametrisation in the quick tier",
             "depth bound on the number of compose calls; levels 2 and 3 of the thorough tier use the reduced 8-letter operand alphabet (level 3 with the state as receiver only)",
         ]
 
